@@ -871,6 +871,7 @@ fn get_meta_info(
         &list.parse_args_with(Punctuated::parse_terminated)?,
         allowed_attr_params,
         None,
+        &mut Vec::new(),
     )?;
 
     Ok(info)
@@ -881,6 +882,7 @@ fn parse_punctuated_nested_meta(
     meta: &Punctuated<polyfill::Meta, Token![,]>,
     allowed_attr_params: &[&str],
     wrapper_name: Option<&str>,
+    seen_params: &mut Vec<String>,
 ) -> Result<()> {
     for meta in meta.iter() {
         match meta {
@@ -897,6 +899,7 @@ fn parse_punctuated_nested_meta(
                     &list.parse_args_with(Punctuated::parse_terminated)?,
                     allowed_attr_params,
                     Some("not"),
+                    seen_params,
                 )?;
             }
 
@@ -996,6 +999,7 @@ fn parse_punctuated_nested_meta(
                         &list.parse_args_with(Punctuated::parse_terminated)?,
                         allowed_attr_params,
                         Some(&attr_name),
+                        seen_params,
                     )?;
                 }
             }
@@ -1013,6 +1017,17 @@ fn parse_punctuated_nested_meta(
                 }
 
                 let attr_name = path.get_ident().unwrap().to_string();
+                // A repeated (`ignore, ignore`) or contradicting (`source, not(source)`)
+                // parameter is an error rather than silently "last one wins".
+                if seen_params.contains(&attr_name) {
+                    return Err(Error::new(
+                        path.span(),
+                        format!(
+                            "Attribute parameter `{attr_name}` is specified more than once",
+                        ),
+                    ));
+                }
+                seen_params.push(attr_name.clone());
                 match (wrapper_name, attr_name.as_str()) {
                     (None, "ignore") => info.enabled = Some(false),
                     (None, "forward") => info.forward = Some(true),
